@@ -73,6 +73,7 @@ Definition bc_eqb (a b : bc) : bool :=
   | BU n, BU m => Nat.eqb n m | BBool, BBool => true | BAcct, BAcct => true
   | BBytes n, BBytes m => n =? m | BPk, BPk => true | BSig, BSig => true | BVarCL, BVarCL => true
   | BVar16, BVar16 => true | BUtf8, BUtf8 => true | BOnion, BOnion => true | BBig, BBig => true
+  | BOmPacket, BOmPacket => true
   | _, _ => false
   end.
 Fixpoint list_eqb {A} (eqb : A -> A -> bool) (l1 l2 : list A) : bool :=
